@@ -219,7 +219,7 @@ def c_fasta_rt(rng):
 
 
 def c_fasta_edit(rng):
-    cpl = rng.choice([1, 3, 7, 80])
+    cpl = rng.choice([1, 3, 7, 80, 80, 0])       # 0: every set must be refused
     pool = [g_header(rng) for _ in range(3)] + [g_header(rng, edge=True) for _ in range(2)]
     ops, hist = [f"fa_new {cpl}"], []
     for _ in range(rng.randint(2, 7)):
@@ -236,6 +236,26 @@ def c_fasta_edit(rng):
             ops.append(rng.choice([f"fa_get {es(h)}", "fa_copy"]))
     ops += ["fa_poke", "fa_items", "fa_reread"]
     return {"kind": "fasta_edit", "ops": ops, "spec": {"o": "fasta", "cpl": cpl, "hist": hist}}
+
+
+def c_raw_symbols(rng):
+    """sequence strings with characters the formats reserve ('>' ';' blanks in FASTA, '+' '@' blanks in FASTQ):
+    outside the theorems' SeqOk / QSeqOk; no oracle claim, the model must still agree with the code op by op"""
+    if rng.random() < 0.5:
+        cpl = rng.choice([1, 2, 3, 80])
+        ops = [f"fa_new {cpl}"]
+        for i in range(rng.randint(1, 3)):
+            s = "".join(rng.choice("ACGT>; \t") for _ in range(rng.choice([1, 2, 3, 5, 8])))
+            ops.append(f"fa_set {es('h' + str(i))} {es(s)}")
+        ops += ["fa_items", f"fa_del {es('h0')}", "fa_reread"]
+        return {"kind": "raw_symbols", "ops": ops}
+    cpl = rng.choice([None, 1, 2, 3])
+    ops = [f"fq_new 33 {'-' if cpl is None else cpl}"]
+    for i in range(rng.randint(1, 3)):
+        s = "".join(rng.choice("ACGT+@ ") for _ in range(rng.choice([1, 2, 3, 5, 8])))
+        ops.append(f"fq_set {es('r' + str(i))} {es(s)} {ei([rng.randint(0, 60) for _ in s])}")
+    ops += ["fq_items", "fq_reread"]      # no further edit: with a '+' at a line start the text is no FASTQ text any more
+    return {"kind": "raw_symbols", "ops": ops}
 
 
 def c_fasta_text(rng):
@@ -291,7 +311,7 @@ def c_fastq_rt(rng):
 
 def c_fastq_edit(rng):
     off = rng.choice([33, 64])
-    cpl = rng.choice([None, 1, 3, 10])
+    cpl = rng.choice([None, 1, 3, 10, 0])       # 0: every set must be refused
     c = "-" if cpl is None else str(cpl)
     pool = [g_header(rng) for _ in range(3)] + [g_header(rng, edge=True)]
     ops, hist = [f"fq_new {off} {c}"], []
@@ -535,6 +555,8 @@ def g_gb_quals(rng, valid=True):
             q[k] = None
         else:
             v = "".join(rng.choice("abAB19 /=:;,.()-_'%<>@+") for _ in range(rng.choice([0, 1, 3, 8, 20])))
+            if rng.random() < 0.1:
+                v += rng.choice(["é", "字", "\u00a0x", "Ω "])
             if r < 0.45:
                 v += "\n" + "".join(rng.choice("xyz /= ") for _ in range(rng.choice([0, 2, 6])))
             if r > 0.9:
@@ -551,13 +573,34 @@ def enc_feat(f):
     return es(f["key"]) + "@" + ";".join(":".join(str(x) for x in l) for l in f["locs"]) + "@" + enc_quals(f["qual"])
 
 
-def g_gb_feat(rng, single=False):
-    return {"key": rng.choice(["gene", "CDS", "source", "misc_feature", "a-15-char-key__", "5'UTR", "x y"]),
-            "locs": [g_loc(rng)] if single else g_locs(rng), "qual": g_gb_quals(rng)}
+def g_gb_feat(rng, single=False, excluded=False):
+    f = {"key": rng.choice(["gene", "CDS", "source", "misc_feature", "a-15-char-key__", "5'UTR", "x y"]),
+         "locs": [g_loc(rng)] if single else g_locs(rng), "qual": g_gb_quals(rng)}
+    if excluded and rng.random() < 0.08:
+        # what the feature table syntax cannot express: set_annotation must refuse it (ValueError)
+        r = rng.random()
+        if r < 0.4:
+            f["key"] = rng.choice(["averyveryverylongkey", "a-16-char-key___", "", " gene", "gene "])
+        elif r < 0.8:
+            f["qual"] = {**f["qual"], rng.choice(["a b", "a=b", 'q"', " k", "t\tk"]): rng.choice([None, "v"])}
+        else:
+            f["qual"] = {**f["qual"], "note": rng.choice(['a"b', '"', 'x ""y"" z'])}
+    return f
+
+
+def gb_feat_refused(f):
+    """mirror of the documented restriction, written from the format: 15-column key, /key="value" syntax"""
+    k = f["key"]
+    if not k or len(k) > 15 or k != k.strip():
+        return True
+    for q, val in f["qual"].items():
+        if any(c.isspace() for c in q) or "=" in q or '"' in q or (val is not None and '"' in val):
+            return True
+    return False
 
 
 def c_gbf_rt(rng):
-    feats = [g_gb_feat(rng) for _ in range(rng.choice([0, 1, 1, 2, 3]))]
+    feats = [g_gb_feat(rng, excluded=True) for _ in range(rng.choice([0, 1, 1, 2, 3]))]
     if not feats:
         return {"kind": "gbf_rt", "ops": ["gbf_parse -"]}
     return {"kind": "gbf_rt", "ops": ["gbf_rt " + "#".join(enc_feat(f) for f in feats)],
@@ -565,7 +608,7 @@ def c_gbf_rt(rng):
 
 
 def c_gbf_print(rng):
-    return {"kind": "gbf_print", "ops": ["gbf_print " + enc_feat(g_gb_feat(rng, single=True))]}
+    return {"kind": "gbf_print", "ops": ["gbf_print " + enc_feat(g_gb_feat(rng, single=True, excluded=True))]}
 
 
 def c_gbf_parse(rng):
@@ -700,6 +743,11 @@ def g_gb_field(rng):
     name = rng.choice(["LOCUS", "definition", "ACCESSION", "Source", " Source ", "comment  ", "REFERENCE", "COMMENT", "X", "ABCDEFGHIJKL", "FEATURES", "ORIGIN"])
     def ln():
         return rng.choice(["one line", "x", "a  b ", "1..2", "     gene            1..5", "        1 acgt", "//", "// x", "ORIGIN", "FEATURES  x", ""])
+    if rng.random() < 0.08:
+        # what _to_lines must refuse: name too long / terminator-like, unindented FEATURES content, long subfield name
+        return rng.choice([("VERYLONGFIELDNAME", ["x"], {}), ("ABCDEFGHIJKLM", ["x"], {}), ("//x", ["y"], {}), ("//", ["y"], {}),
+                           ("FEATURES", ["gene 1..5"], {}), ("origin", ["        1 acgt", "2 acgt"], {}),
+                           ("SOURCE", ["x"], {"averylongsubfield": ["q"]}), ("", ["x"], {}), ("  ", ["x"], {})])
     if name in ("FEATURES", "ORIGIN"):
         # content of these two fields is stored without indentation: valid lines start with a blank
         content = [rng.choice(["     gene            1..5", "        1 acgt", "                     /note=\"x\""]) for _ in range(rng.choice([0, 1, 2]))]
@@ -801,6 +849,15 @@ def c_gff_annot(rng):
         if len(locs) > 1 or rng.random() < 0.5:
             q = {"ID": f"feat{i}", **q}
         feats.append({"key": rng.choice(["gene", "CDS", "exon", "a b", "x%41y", "t;=,&"]), "locs": locs, "qual": q})
+    r = rng.random()
+    if r < 0.08 and len(feats) > 1:
+        feats[-1]["qual"] = {**feats[-1]["qual"], "ID": feats[0]["qual"].get("ID", "dup")}      # two features, one ID: must be refused
+        feats[0]["qual"] = {**feats[0]["qual"], "ID": feats[-1]["qual"]["ID"]}
+    elif r < 0.11:
+        feats[-1]["qual"] = {**feats[-1]["qual"], "pseudo": None}                                  # a qualifier without value: must be refused up front
+    elif r < 0.16:
+        feats[0]["locs"] = [[1, 5, 0, 0], [9, 12, 0, 0]]                                          # several locations without an ID: must be refused
+        feats[0]["qual"] = {k: x for k, x in feats[0]["qual"].items() if k != "ID"}
     return {"kind": "gff_annot_rt", "spec": {"o": "gff_annot", "features": feats, "seqid": rng.choice([None, "chr1", "a%b"]), "source": rng.choice([None, "me", "a b"])}}
 
 
@@ -854,7 +911,7 @@ def c_api(rng):
     return {"kind": "api_" + sub, "spec": spec}
 
 
-GENS = [(c_api, 10), (c_fasta_rt, 8), (c_fasta_edit, 8), (c_fasta_text, 4), (c_fastq_rt, 8), (c_fastq_edit, 6), (c_fastq_text, 4),
+GENS = [(c_api, 10), (c_raw_symbols, 3), (c_fasta_rt, 8), (c_fasta_edit, 8), (c_fasta_text, 4), (c_fastq_rt, 8), (c_fastq_edit, 6), (c_fastq_text, 4),
         (c_fastq_offset, 2), (c_loc, 10), (c_loc_parse, 6), (c_gff_quote, 4), (c_gff_line, 8), (c_gff_parse, 3),
         (c_gff_edit, 8), (c_gff_edit_dir, 5), (c_gff_fasta, 5), (c_gff_group, 5), (c_gff_text, 3), (c_gbf_rt, 8), (c_gbf_print, 4), (c_gbf_parse, 6), (c_org_print, 4), (c_org_read, 3), (c_gb_edit, 8), (c_gb_text, 3), (c_wrap, 2), (c_genbank, 10), (c_gff_annot, 5),
         (c_seq_conv, 4)]
@@ -1437,6 +1494,14 @@ def _o_fasta(spec):
             _, h, s = step
             try:
                 f[h] = s
+                if spec["cpl"] == 0:
+                    return v + [("C12/fasta/width-zero-accepted", f"set {h!r} with chars_per_line=0 was accepted")]
+            except ValueError:
+                if spec["cpl"] != 0:
+                    raise
+                if list(f.items()) != list(ref.items()):
+                    return v + [("C12/fasta/refused-call-changed-object", f"set {h!r} with chars_per_line=0 was rejected but the file changed")]
+                continue
             except Exception as e:  # noqa: BLE001  (an edit of a file the library itself wrote must not fail)
                 return v + [(f"C12/fasta/edit-raises/{type(e).__name__}", f"set {h!r} (len {len(s)}, chars_per_line {spec['cpl']}) after {len(ref)} entries: {e}")]
             ref.pop(_norm(h), None)
@@ -1493,8 +1558,6 @@ def _o_fasta_text(spec):
     from biotite.file import InvalidFileError
     from biotite.sequence.io.fasta import FastaFile
     text = "\n".join(spec["lines"]) + "\n"
-    if any(l != l.lstrip() for l in spec["lines"]):
-        return []      # indented '>' / ';' lines: read() and read_iter() differ, outside the property (never written)
     try:
         a = list(FastaFile.read(io.StringIO(text)).items())
     except InvalidFileError:
@@ -1524,7 +1587,7 @@ def _o_fastq(spec):
         if step[0] == "set":
             _, h, s, q = step
             before = _snap("fastq", f)
-            expect_refusal = len(s) == 0 or len(s) != len(q) or any(not 33 <= x + off <= 126 for x in q)
+            expect_refusal = cpl == 0 or len(s) == 0 or len(s) != len(q) or any(not 33 <= x + off <= 126 for x in q)
             try:
                 f[h] = (s, np.array(q, dtype=int))
             except ValueError:
@@ -1653,7 +1716,18 @@ def _o_genbank(spec):
     aseq = AnnotatedSequence(annot, seq, sequence_start=spec["start"])
     f = gb.GenBankFile()
     gb.set_locus(f, "X", len(seq))
-    gb.set_annotated_sequence(f, aseq)
+    refuse = any(gb_feat_refused(ft) for ft in spec["features"])
+    lines_before = list(f.lines)
+    try:
+        gb.set_annotated_sequence(f, aseq)
+    except ValueError:
+        if not refuse:
+            raise
+        if f.lines != lines_before:
+            return [("C12/genbank/refused-call-changed-object", "set_annotated_sequence was rejected but the file changed")]
+        return []
+    if refuse:
+        return [("C12/genbank/inexpressible-feature-accepted", f"{[(ft['key'], ft['qual']) for ft in spec['features'] if gb_feat_refused(ft)][:2]} was written")]
     try:
         back = gb.get_annotated_sequence(_reread(gb.GenBankFile, f), spec["format"])
     except Exception as e:  # noqa: BLE001
@@ -1689,7 +1763,22 @@ def _o_gff_annot(spec):
     import biotite.sequence.io.gff as gff
     annot = _mkannot(spec["features"])
     f = gff.GFFFile()
-    gff.set_annotation(f, annot, spec["seqid"], spec["source"])
+    ids = [ft["qual"]["ID"] for ft in spec["features"] if "ID" in ft["qual"]]
+    refuse = (len(ids) != len(set(ids)) or any(len(ft["locs"]) > 1 and "ID" not in ft["qual"] for ft in spec["features"])
+              or any(x is None for ft in spec["features"] for x in ft["qual"].values()))
+    if len({(ft["key"], tuple(map(tuple, ft["locs"])), tuple(sorted((k, str(x)) for k, x in ft["qual"].items()))) for ft in spec["features"]}) != len(spec["features"]):
+        return []      # identical features collapse in the Annotation (a set): the duplicate-ID rule does not apply
+    lines_before = list(f.lines)
+    try:
+        gff.set_annotation(f, annot, spec["seqid"], spec["source"])
+    except ValueError:
+        if not refuse:
+            raise
+        if f.lines != lines_before:
+            return [("C12/gff/refused-call-changed-object", "set_annotation was rejected but entries were written")]
+        return []
+    if refuse:
+        return [("C12/gff/ambiguous-annotation-accepted", f"IDs {ids}, locations {[len(ft['locs']) for ft in spec['features']]}: written although get_annotation cannot tell the features apart")]
     back = gff.get_annotation(_reread(gff.GFFFile, f))
     if back != annot:
         a, b = set(annot), set(back)
@@ -1767,7 +1856,20 @@ def _o_gff_hist(spec):
                 f.append_directive(step[1], *step[2])
             elif step[0] == "copy":
                 f = f.copy()
-        except (IndexError, NotImplementedError, ValueError):
+        except (IndexError, NotImplementedError, ValueError) as exc:
+            # a refusal is legitimate only where the documented contract says so
+            n_ent = len(before_step[0]) if before_step else 0
+            has_fasta = any(l == "##FASTA" for l in f.lines)
+            legit = False
+            if isinstance(exc, IndexError) and step[0] in ("insert", "set", "del"):
+                legit = not (-n_ent <= step[1] < n_ent or (step[0] == "insert" and step[1] == n_ent))
+            elif isinstance(exc, NotImplementedError):
+                legit = (has_fasta and (step[0] in ("append", "directive") or (step[0] == "insert" and step[1] == n_ent))) or (step[0] == "directive" and step[1].startswith("FASTA"))
+            elif isinstance(exc, ValueError) and step[0] in ("append", "insert", "set"):
+                t = _entry_tuple(step[-1])
+                legit = t[0].strip()[:1] in ("#", ">", "") or not t[1].strip() or not t[2].strip()
+            if not legit:
+                return [(f"C12/gff/edit-raises/{type(exc).__name__}", f"{step[0]} {step[1] if step[0] != 'append' else ''} on {n_ent} entries (FASTA section: {has_fasta}): {exc}")]
             if _snap("gff", f) != before_step:
                 return [("C12/gff/refused-call-changed-object", f"{step[0]} {step[1] if step[0] != 'append' else ''} was rejected but the file changed")]
             continue
@@ -1802,8 +1904,20 @@ def _o_gb_hist(spec):
     def item(name, content, subs):
         nm = name.strip().upper()
         return (nm, list(content), OrderedDict() if nm in ("FEATURES", "ORIGIN") else OrderedDict((k.upper().strip(), list(x)) for k, x in (subs or {}).items()))
+    def must_refuse(st):
+        """exactly the field specifications _to_lines cannot write in a readable way"""
+        if st[0] not in ("append", "insert", "set", "setfield"):
+            return False
+        nm, content, subs = st[-3].strip().upper(), st[-2], st[-1] or {}
+        if not nm or len(nm) > 12 or nm.startswith("//") or any(len(k.upper().strip()) > 10 for k in subs):
+            return True
+        if nm in ("FEATURES", "ORIGIN"):
+            return any(l and l[0] != " " for l in content)
+        return not content or any(not x for x in {k.upper().strip(): x for k, x in subs.items()}.values())
+
     for step in spec["hist"]:
         before_step = _snap("genbank", f)
+        n_before = len(f)
         try:
             if step[0] == "append":
                 f.append(*step[1:]); ref.append(item(*step[1:]))
@@ -1822,18 +1936,25 @@ def _o_gb_hist(spec):
                     ref.append(item(*step[1:]))
             elif step[0] == "del":
                 del f[step[1]]; del ref[step[1]]
-        except (IndexError, InvalidFileError):
+        except (IndexError, InvalidFileError) as exc:
+            if isinstance(exc, IndexError):
+                legit = step[0] in ("insert", "set", "del") and not (-n_before <= step[1] < n_before or (step[0] == "insert" and step[1] == n_before))
+            else:
+                legit = step[0] == "setfield" and sum(1 for r in ref if r[0] == step[1].strip().upper()) > 1
+            if not legit:
+                return [(f"C12/genbank/edit-raises/{type(exc).__name__}", f"{step[:2]} on {n_before} fields: {exc}")]
             if _snap("genbank", f) != before_step:
                 return [("C12/genbank/refused-call-changed-object", f"{step[:2]} was rejected but the file changed")]
             continue
         except ValueError:
-            nm = step[-3].strip().upper()
-            if not nm or (nm not in ("FEATURES", "ORIGIN") and (not step[-2] or any(not x for x in (step[-1] or {}).values()))):
-                # empty name / a field or subfield without content lines is rejected: the file must be unchanged
+            if must_refuse(step):
+                # a field that could not be read back is rejected: the file must be unchanged
                 if _snap("genbank", f) != before_step:
                     return [("C12/genbank/refused-call-changed-object", f"{step[:2]} was rejected but the file changed")]
                 continue
             raise
+        if must_refuse(step):
+            return [("C12/genbank/unreadable-field-accepted", f"{step[:2]}: name {step[-3]!r}, content {step[-2][:2]}, subfields {list((step[-1] or {}))} was accepted")]
         view = [f[i] for i in range(len(f))]
         g = _reread(GenBankFile, f)
         back = [g[i] for i in range(len(g))]
